@@ -1,11 +1,50 @@
 import Gaftools.Props.C09
 import Gaftools.Model.SortText
+import Gaftools.Proofs.ConvLemmas
 /-!
 # C09 (continued) — at the level of lines: the output is a permutation of the right-stripped input lines, each extended by
 # exactly the three fields of its own record
 -/
 namespace Gaftools.C09
 open Gaftools.Gaf Gaftools.Sort Gaftools.SortText
+
+/-- `process_alignment` stores the offset it was handed -/
+theorem processAlignment_offset (nodes : String → Option NodeTags) (steps : List Step) (plen ps pe off : Int) (a : Aln)
+    (h : processAlignment nodes steps plen ps pe off = .ok a) : a.offset = off := by
+  unfold processAlignment at h
+  repeat' split at h
+  all_goals first
+    | (injection h with h; subst h; rfl)
+    | cases h
+
+theorem alnOfLine_offset (nodes : String → Option NodeTags) (line : Str) (ord : Nat) (a : Aln)
+    (h : alnOfLine nodes line ord = some a) : a.offset = (ord : Int) := by
+  unfold alnOfLine at h
+  split at h
+  · split at h
+    · rename_i path plen ps pe _ _ _
+      cases hp : processAlignment nodes (ConvText.parseUnstableSteps path) (ConvText.toNat plen) (ConvText.toNat ps)
+          (ConvText.toNat pe) (ord : Nat) with
+      | error e => rw [hp] at h; cases h
+      | ok b =>
+        rw [hp] at h
+        have hb : b = a := by simpa [Except.toOption] using h
+        subst hb
+        exact processAlignment_offset _ _ _ _ _ _ _ hp
+    · cases h
+  · cases h
+
+/-- the i-th alignment record carries ordinal i as its offset (so the line looked up in the second pass is its own line) -/
+theorem alns_offsets (nodes : String → Option NodeTags) (lines : List Str) (alns : List Aln)
+    (h : lines.zipIdx.mapM (fun (l, i) => alnOfLine nodes l i) = some alns) :
+    alns.length = lines.length ∧ ∀ i (hi : i < alns.length), (alns[i]).offset = (i : Int) := by
+  obtain ⟨hl, hp⟩ := (Proofs.Conv.mapM_eq_some_iff _ _ _).1 h
+  rw [List.length_zipIdx] at hl
+  refine ⟨hl, fun i hi => ?_⟩
+  have := hp i (by rw [List.length_zipIdx]; omega)
+  rw [List.getElem?_eq_getElem hi] at this
+  simp only [List.getElem_zipIdx, Nat.zero_add] at this
+  exact alnOfLine_offset _ _ _ _ this
 
 /-- every written line is an input line (right-stripped) plus the suffix computed from that very line; as a multiset the
     right-stripped input lines are all there, each once -/
@@ -15,12 +54,23 @@ theorem sortLines_perm (nodes : String → Option NodeTags) (lines out : List St
       out.length = lines.length ∧
       (out.Perm ((List.range lines.length).map (fun i =>
           rstrip (lines.getD i []) ++ (match alns[i]? with | some a => (suffix a).toList | none => [])))) := by
-  sorry
-
-/-- the i-th alignment record carries ordinal i as its offset (so the line looked up in the second pass is its own line) -/
-theorem alns_offsets (nodes : String → Option NodeTags) (lines : List Str) (alns : List Aln)
-    (h : lines.zipIdx.mapM (fun (l, i) => alnOfLine nodes l i) = some alns) :
-    alns.length = lines.length ∧ ∀ i (hi : i < alns.length), (alns[i]).offset = (i : Int) := by
-  sorry
-
-end Gaftools.C09
+  unfold sortLines at h
+  cases hm : lines.zipIdx.mapM (fun (l, i) => alnOfLine nodes l i) with
+  | none => rw [hm] at h; cases h
+  | some alns =>
+    rw [hm] at h
+    have ho : (sortAlns alns).map (fun a => rstrip (lines.getD a.offset.toNat []) ++ (suffix a).toList) = out := by
+      have h' : some ((sortAlns alns).map (fun a => rstrip (lines.getD a.offset.toNat []) ++ (suffix a).toList))
+          = some out := h
+      exact Option.some.inj h'
+    obtain ⟨hl, hoff⟩ := alns_offsets nodes lines alns hm
+    refine ⟨alns, rfl, ?_, ?_⟩
+    · rw [← ho, List.length_map, ((C08.sort_perm alns).length_eq), hl]
+    · rw [← ho]
+      refine ((C08.sort_perm alns).map _).trans ?_
+      apply List.Perm.of_eq
+      apply List.ext_getElem
+      · simp [hl]
+      · intro i h1 h2
+        have hi : i < alns.length := by simpa using h1
+        simp only [List.getElem_map, List.getElem_range, List.getElem?_eq_getElem hi, hoff i hi, Int.toNat_natCast]
